@@ -252,6 +252,7 @@ Proof.
   - inversion H; subst. split; reflexivity.
   - inversion H; subst. split; reflexivity.
   - inversion H; subst. split; reflexivity.
+  - inversion H; subst. split; reflexivity.
   - destruct (obj_next k st inner) as [[w st1]|] eqn:E1; [|discriminate]. inversion H; subst. eapply IH; eauto.
   - destruct (obj_next k st inner) as [[w st1]|] eqn:E1; [|discriminate].
     destruct (IH _ _ _ _ E1) as [A1 A2].
@@ -606,7 +607,7 @@ Print Assumptions fresh_iter_rep.
 (* independence of iterators                                            *)
 (* ------------------------------------------------------------------ *)
 Definition is_native (o : iobj) : bool :=
-  match o with OMap _ _ | OFilter _ _ | OBag _ | OVBag _ | OChained _ _ => false | _ => true end.
+  match o with OMap _ _ | OFilter _ _ | OBag _ | OVBag _ | OChained _ _ | ORange _ _ => false | _ => true end.
 
 Lemma native_step_frame : forall k st id o v st', nth_error (heap st) id = Some o -> is_native o = true ->
   obj_next k st id = Some (v, st') ->
